@@ -97,7 +97,7 @@ UNITS += [
          wrap_open="impl RewriteVisitor {", wrap_close="}",
          functions=["<blob::tree::rewrite::RewriteVisitor as Visitor>::process_node"],
          rewrites=[
-             Rw("self.summary.entry(id).or_default().update(&node);", "self.summary.vupdate(id, &node);", why="BTreeMap entry API + statistics -> stub"),
+             Rw("self.summary.entry(id).or_default().update(&node);", "vsummary_update(&mut self.summary, id, &node);", why="BTreeMap entry API + statistics -> stub"),
              Rw("self.node_modification.modify_node(&mut node) | self.all_trees", "{ let vm = self.node_modification.modify_node(&mut node); vm || self.all_trees }", why="non-short-circuit `|` on bool -> evaluate the call first, then `||` (same value and effects)"),
              Rw(r"if node\.is_dir\(\)\s*&& let Some\(subtree\) = node\.subtree\s*\{(?P<a>.*?)\} else \{(?P<b>.*?)\}\n        \}", r"match (node.is_dir(), node.subtree) { (true, Some(subtree)) => {\g<a>}, _ => {\g<b>} }\n        }", regex=True,
                 why="let chain with else -> match on the pair (definition)"),
@@ -115,6 +115,31 @@ UNITS += [
                 _ => r matches NodeAction::Node(n, c) && n == m && c == ch,
             }
         }),
+"""),
+]
+
+UNITS += [
+    Unit(name="RewriteVisitor", file=RWT, kind="type", anchor="pub struct RewriteVisitor {", rewrites=[R_ATTRS]),
+    Unit(name="rewrite_pre_process", file=RWT, anchor="fn pre_process(&self, path: &PathBuf, id: TreeId) -> ModifierAction", within="impl Visitor for RewriteVisitor {", ret_name="r",
+         wrap_open="impl RewriteVisitor {", wrap_close="}",
+         functions=["<blob::tree::rewrite::RewriteVisitor as Visitor>::pre_process"],
+         contract="""
+    ensures
+        // a memoised result is reused only for the very (path, tree) it was computed for: excludes are matched against full
+        // paths, so the same tree at another path may rewrite differently
+        /*@memo_is_per_path_and_tree*/ r == memo_answer(self.unchanged@, self.changed@, *path, id),
+"""),
+    Unit(name="rewrite_post_process", file=RWT, anchor="fn post_process(&mut self, path: PathBuf, id: TreeId, new_id: Option<TreeId>, tree: &Tree)", within="impl Visitor for RewriteVisitor {",
+         wrap_open="impl RewriteVisitor {", wrap_close="}",
+         functions=["<blob::tree::rewrite::RewriteVisitor as Visitor>::post_process"],
+         rewrites=[Rw(r"let mut summary = Summary::default\(\);.*?let _ = self\.summary\.insert\(new_id\.unwrap_or\(id\), summary\);", "vsummary_record(&mut self.summary, id, new_id, tree);", regex=True,
+                      why="ELIDED: per-tree statistics (files / dirs / size), not part of the property")],
+         contract="""
+    ensures
+        /*@result_recorded_under_its_path_and_tree*/ match new_id {
+            Some(n) => final(self).changed@ == old(self).changed@.insert((path, id), n) && final(self).unchanged@ == old(self).unchanged@,
+            None => final(self).unchanged@ == old(self).unchanged@.insert((path, id)) && final(self).changed@ == old(self).changed@,
+        },
 """),
 ]
 
